@@ -158,6 +158,7 @@ func (p Plan) Validate(ctx context.Context, n int, pb ProgressBar) (err error) {
 		})
 	}
 
+	var interrupted bool
 loop:
 	for _, s := range p {
 		if !s.isFileSeed() {
@@ -166,11 +167,16 @@ loop:
 		}
 		select {
 		case <-ctx.Done():
+			interrupted = true
 			break loop
 		case in <- Job{s, fileMap[s.source.FileName()]}:
 		}
 	}
 	close(in)
 
-	return g.Wait()
+	err = g.Wait()
+	if err == nil && interrupted {
+		err = Interrupted{}
+	}
+	return err
 }
